@@ -25,3 +25,25 @@ pub fn yield_point(site: u32) {
         f(site);
     }
 }
+
+/// CPU tier cap (hook H2).  When the environment variable `ZIPORA_VERIF_TIER_CAP` is set to
+/// `scalar`, `sse42` or `avx2`, run-time feature detection inside this crate reports only the
+/// features of that tier, so a harness can run the same inputs through every dispatch tier
+/// the host supports.  Unset / `native` = no cap.  Read once per process.
+pub fn feature_allowed(name: &str) -> bool {
+    use std::sync::OnceLock;
+    static CAP: OnceLock<u8> = OnceLock::new();
+    let cap = *CAP.get_or_init(|| match std::env::var("ZIPORA_VERIF_TIER_CAP").as_deref() {
+        Ok("scalar") => 0,
+        Ok("sse42") => 1,
+        Ok("avx2") => 2,
+        _ => 3,
+    });
+    let tier = match name {
+        "sse" | "sse2" => 0, // baseline of x86_64, cannot be switched off
+        "sse3" | "ssse3" | "sse4.1" | "sse4.2" | "popcnt" | "pclmulqdq" | "aes" | "cmpxchg16b" => 1,
+        "avx" | "avx2" | "bmi1" | "bmi2" | "lzcnt" | "fma" | "f16c" | "movbe" => 2,
+        _ => 3, // avx512*, vaes, gfni, sha, ...
+    };
+    tier <= cap
+}
